@@ -48,7 +48,7 @@ def run(ctx):
     def overlaps(got, want, tol_abs):
         return got[0] - tol_abs <= want[1] and want[0] - tol_abs <= got[1]
 
-    n = ctx.scale(5000, 500_000)
+    n = ctx.scale(10000, 500_000)
     for i in range(n):
         ctx.count("evaluations")
         fa = pools.random_factors(rng, max_factors=rng.choice([1, 2, 3]), hostile=0.25, physical_only=True)
@@ -124,6 +124,9 @@ def run(ctx):
                     continue
                 except (OverflowError, ZeroDivisionError):
                     ctx.count("magnitude_arithmetic_error")
+                    continue
+                except Exception as e:  # an internal error of the planner is C07's business: no answer here
+                    ctx.count(f"no_answer_other_exception/{type(e).__name__}")
                     continue
                 if isinstance(res, Q) and (not kit.finite(res.magnitude) or not (1e-200 < abs(res.magnitude) < 1e200) and opname != "sub"):
                     ctx.count("skipped_result_out_of_float_range")
